@@ -16,6 +16,7 @@ package compat
 import (
 	"bytes"
 	"fmt"
+	"reflect"
 	"strings"
 	"sync"
 	"sync/atomic"
@@ -428,8 +429,32 @@ func TestVerifC17(t *testing.T) {
 // message of failure #badAt (1-based; 0 = all) holds invalid UTF-8. known=false: the legacy schema does not
 // know this path.
 func vfChainWire(r vfRepairRoot, p vrt.Path, n int, badAt int) ([]byte, bool) {
+	return vfChainWireSib(r, p, n, badAt, "")
+}
+
+// vfPathHasList: some step of the path (or its leaf) is a repeated message field, so elements can have siblings.
+func vfPathHasList(p vrt.Path) bool {
+	for _, st := range p {
+		if st.Field.IsList() && !st.Blob {
+			return true
+		}
+	}
+	return false
+}
+
+// vfChainWireSib is vfChainWire with, in every repeated message field along the path, one more element without
+// any failure in it "before" or "after" the element that carries the path.
+func vfChainWireSib(r vfRepairRoot, p vrt.Path, n int, badAt int, sib string) ([]byte, bool) {
 	const marker = "MSG~"
-	msg := vrt.BuildForPath(r.MD, p, vrt.BuildOpts{Decorate: vrt.DecorateEvent, SetLeaf: func(m protoreflect.Message, leaf protoreflect.FieldDescriptor) {
+	pad := func(f protoreflect.FieldDescriptor) protoreflect.Message { return vrt.NewMessage(f.Message()) }
+	opts := vrt.BuildOpts{Decorate: vrt.DecorateEvent}
+	switch sib {
+	case "before":
+		opts.Pad = pad
+	case "after":
+		opts.PadAfter = pad
+	}
+	opts.SetLeaf = func(m protoreflect.Message, leaf protoreflect.FieldDescriptor) {
 		var set func(f protoreflect.Message, k int)
 		set = func(f protoreflect.Message, k int) {
 			fmd := f.Descriptor()
@@ -441,11 +466,18 @@ func vfChainWire(r vfRepairRoot, p vrt.Path, n int, badAt int) ([]byte, bool) {
 		if leaf.IsList() {
 			f := vrt.NewMessage(leaf.Message())
 			set(f, 1)
+			if sib == "before" {
+				m.Mutable(leaf).List().Append(protoreflect.ValueOfMessage(vrt.NewMessage(leaf.Message())))
+			}
 			m.Mutable(leaf).List().Append(protoreflect.ValueOfMessage(f))
+			if sib == "after" {
+				m.Mutable(leaf).List().Append(protoreflect.ValueOfMessage(vrt.NewMessage(leaf.Message())))
+			}
 		} else {
 			set(m.Mutable(leaf).Message(), 1)
 		}
-	}})
+	}
+	msg := vrt.BuildForPath(r.MD, p, opts)
 	restricted, err := vfLegacyRestrict(msg)
 	if err != nil {
 		return nil, false
@@ -474,7 +506,14 @@ func TestVerifC18(t *testing.T) {
 	}()
 	roots, _ := vfSupportedRoots()
 	st := &vfRepairStats{}
-	var pairs, skippedLegacy int64
+	// the conversion tables themselves: every type is paired with the legacy type of the same name
+	for _, r := range roots {
+		old, _ := vfConvert(r.newMsg())
+		if got := reflect.TypeOf(old).Elem().Name(); got != string(r.MD.Name()) {
+			res.Violate("C18/conversion-table/wrong-legacy-type", fmt.Sprintf("%s is down-converted to the legacy type %s: failure messages in it are decoded with the wrong schema and never repaired", r.MD.FullName(), got), map[string]any{"root": string(r.MD.FullName())})
+		}
+	}
+	var pairs, skippedLegacy, siblingCases int64
 	var skipped sync.Map
 	type job struct {
 		r vfRepairRoot
@@ -509,6 +548,24 @@ func TestVerifC18(t *testing.T) {
 			vfCheckWire(res, "C18/"+sigPath, j.r, wire, fmt.Sprintf("invalid UTF-8 in the failure message at depth %d of %s", depth, j.p), rp, st)
 			_ = before
 		}
+		// repeated fields along the path: a sibling element without a failure before / after the repaired one
+		if vfPathHasList(j.p) {
+			for _, sib := range []string{"before", "after"} {
+				for _, depth := range []int{1, 2} {
+					wire, known := vfChainWireSib(j.r, j.p, depth, depth, sib)
+					if !known {
+						continue
+					}
+					atomic.AddInt64(&siblingCases, 1)
+					sigPath := j.p.String()
+					if len(sigPath) > 120 {
+						sigPath = sigPath[len(sigPath)-120:]
+					}
+					rp := map[string]any{"root": string(j.r.MD.FullName()), "path": j.p.String(), "depth": depth, "sibling": sib}
+					vfCheckWire(res, "C18/sibling-"+sib+"/"+sigPath, j.r, wire, fmt.Sprintf("invalid UTF-8 in the failure message at depth %d of %s, with a failure-free element %s it in every repeated field on the way", depth, j.p, sib), rp, st)
+				}
+			}
+		}
 	})
 	// all paths of a root at once (fully populated, every failure message invalid)
 	var allAtOnce int64
@@ -537,6 +594,7 @@ func TestVerifC18(t *testing.T) {
 	res.Set("evaluations", st.evals)
 	res.Set("distinct_nontrivial", st.repaired+st.refused)
 	res.Set("type_path_pairs", pairs)
+	res.Set("sibling_element_cases", siblingCases)
 	res.Set("type_path_pairs_unknown_to_legacy_schema", skippedLegacy)
 	res.Set("roots_checked_all_at_once", allAtOnce)
 	res.Set("inputs_to_be_repaired", st.repaired)
@@ -545,7 +603,7 @@ func TestVerifC18(t *testing.T) {
 		sk = sk[:12]
 	}
 	res.Set("examples_unknown_to_legacy_schema", sk)
-	res.Set("rule", "for every down-convertible request/response type: every structural path from the descriptors (through oneofs, repeated fields, History events, commands; each type at most twice) to a field of type Failure that the legacy schema also knows x chain depth 1..10 (must be repaired) and 11 (error or correct repair); plus all failure messages of the fully populated message at once; non-trivial = inputs the standard codec rejects for invalid UTF-8")
+	res.Set("rule", "for every down-convertible request/response type: every structural path from the descriptors (through oneofs, repeated fields, History events, commands; each type at most twice) to a field of type Failure that the legacy schema also knows x chain depth 1..10 (must be repaired) and 11 (error or correct repair); the same at depth 1-2 with a failure-free sibling element before / after the repaired one in every repeated field on the way; the conversion tables pair every type with the legacy type of the same name; plus all failure messages of the fully populated message at once; non-trivial = inputs the standard codec rejects for invalid UTF-8")
 	res.Set("exhaustive", true)
 	if len(jobs) > 0 {
 		res.Sample(map[string]any{"root": string(jobs[0].r.MD.FullName()), "path": jobs[0].p.String(), "depth": 10})
